@@ -194,8 +194,8 @@ PROPS["C09"] = {
 
 PROPS["C01"] = {
     "level": "model_checking",
-    "level_text": 'RT(shape): for every message shape of the catalogue the solver decides IN ONE QUERY, for all values of all numeric fields, raw data and trailing bytes, that parsing Message::as_bytes(m) followed by the tail yields m field for field (floats bit for bit) and exactly the tail as remainder - the property as stated, on the crate\'s own bytes. In addition P(shape): parsing the independent reference encoding ++ tail yields the message and the tail (with W(shape), writer == reference bytes, in C02 this gives the identity a second time by substitution, and covers the string layouts, for which the writer cannot be executed symbolically).',
-    "level_note": 'Shapes are enumerated, not symbolic: control bytes (HTYP, MSIN, NOAR, LEN, type info, length prefixes) and id/text contents are literal per harness (texts contain a two-byte UTF-8 character). Shapes: 4 payload kinds, both byte orders, with/without storage header, optional-field combinations, zero-argument verbose / network-trace payloads, every one of the 38 argument layouts plus length variants (round trip: all layouts except string and raw data).',
+    "level_text": 'P(shape) and W(shape): for every message shape of the catalogue (4 payload kinds, both byte orders, with/without storage header, optional-field combinations, zero-argument verbose / network-trace payloads, every one of the 38 argument layouts plus length variants) the solver decides, for all values of all numeric fields, raw data and trailing bytes, that parsing the reference encoding followed by the tail yields the message field for field (floats bit for bit) and exactly the tail (P, here), and that the writer emits exactly the reference encoding (W: whole messages c02w_msg_* / wm_arg_* and writer units, C02) - the serialise-then-parse identity by substitution of equal byte strings. RT(shape): for the non-verbose, control, network-trace and bool-argument shapes the identity is ALSO decided as stated, in one query: dlt_message(Message::as_bytes(m) ++ tail) == (tail, m) on the crate\'s own bytes.',
+    "level_note": 'Shapes are enumerated, not symbolic: control bytes (HTYP, MSIN, NOAR, LEN, type info, length prefixes) and id/text contents are literal per harness (texts contain a two-byte UTF-8 character). Shapes: 4 payload kinds, both byte orders, with/without storage header, optional-field combinations, zero-argument verbose / network-trace payloads, every one of the 38 argument layouts plus length variants (one-query round trip only for non-verbose / control / network-trace / bool-argument shapes: numeric argument layouts hit the 900 s cap, string and raw layouts exceed memory in the writer direction).',
     "functions": ['Message::as_bytes', 'StandardHeader::as_bytes', 'ExtendedHeader::as_bytes', 'StorageHeader::as_bytes', 'PayloadContent::as_bytes', 'Argument::as_bytes::<BE|LE>', 'parse::dlt_message', 'parse::dlt_message_intern', 'parse::dlt_standard_header', 'parse::dlt_extended_header', 'parse::dlt_storage_header', 'parse::dlt_payload', 'parse::dlt_argument::<BE|LE>', 'parse::dlt_zero_terminated_string_intern'],
     "bounds": 'messages <= 96 bytes, <= 2 arguments, names/units/strings/raw 0..3 bytes, tail 1..3 symbolic bytes',
     "outside": 'longer strings, > 2 arguments, total length near 65535, symbolic id/text contents (C19), symbolic control bytes (C14, c02d)',
